@@ -21,9 +21,9 @@ from vplib.props import c02gen
 
 MANIFEST = dict(
     category="proof",
-    text="partial. Coq theorems about the reference evaluator Lang.eval (fuelled big-step semantics of the core sequential language written from docs/spec.md): eval_fuel_mono (a finished result is stable under more fuel, for every judgement of the evaluator: the semantics is a partial function), chain_infallible, sequence_short_circuit, branch_fallthrough, consequence_commits, match_verdict (Ok/[] and exactly the pattern's binders; nil-filled after a failure), block_scoping, closure_captures_by_value, redundant_block_noop (one step of normalize_blocks). NOT a theorem: that the Rust compiler's bytecode computes eval (no model of compiler.rs) — the statement compile_correct is kept as a comment in props/C02.v. That link is validated by differential execution: the real parser's AST is evaluated by the extracted evaluator and compared with real compile+run on test-suite sources (with the suite's expected strings as a third oracle), the spec's examples with their documented results, corpus probes and type-directed generated programs accepted by the real compiler.",
+    text="partial. Coq theorems about the reference evaluator Lang.eval (fuelled big-step semantics of the core sequential language written from docs/spec.md): eval_fuel_mono (a finished result is stable under more fuel, for every judgement of the evaluator: the semantics is a partial function), chain_infallible, sequence_short_circuit, branch_fallthrough, consequence_commits, match_verdict (a match is Ok or []; on success the scope grows by the pattern's bindings, on failure by its static binders all nil), match_binds_only_binders, pmatch_extends, bare_binder_always_succeeds, block_scoping, closure_captures_by_value. normalize_preserves_eval is NOT attempted (Simplify.v is over Ast.v whose patterns/types are opaque; the evaluator has its own AST). NOT a theorem: that the Rust compiler's bytecode computes eval (no model of compiler.rs) — the statement compile_correct is kept as a comment in props/C02.v. That link is validated by differential execution: the real parser's AST is evaluated by the extracted evaluator and compared with real compile+run on test-suite sources (with the suite's expected strings as a third oracle), the spec's examples with their documented results, corpus probes and type-directed generated programs accepted by the real compiler.",
     design_ref="§5 C02",
-    note="Trusted: Coq kernel, extraction (ExtrOcamlBasic), OCaml driver (AST reader, atom interning), Rust harness qv_ast (AST dumper) and qvh::eval_source, Python differ/generator/shrinker. Out of the modelled fragment (reported as `unsupported`, counted): processes/select/spawn/send/self, resources/IO, refs, builtins other than integer add/subtract/multiply/divide/modulo/gcd/compare/abs/sqrt and binary concat/length, function/process/module types and type spreads inside type patterns, `^n` (n>0), context-inferred parameters of `#{..}` literals. Where static typing decides what the spec words dynamically (a variable whose type mixes callables and non-callables, type variables) the generator avoids the construct. The generator also avoids the known typing defects F13/F27 by construction (they belong to C20/C01).",
+    note="Trusted: Coq kernel, extraction (ExtrOcamlBasic), OCaml driver (AST reader, atom interning), Rust harness qv_ast (AST dumper) and qvh::eval_source, Python differ/generator/shrinker. Out of the modelled fragment (reported as `unsupported`, counted): processes/select/spawn/send/self, resources/IO, refs, builtins other than integer add/subtract/multiply/divide/modulo/gcd/compare/abs/sqrt and binary concat/length, function/process/module types and type spreads inside type patterns, `^n` (n>0), context-inferred parameters of `#{..}` literals. Where static typing decides what the spec words dynamically (a variable whose type mixes callables and non-callables, type variables) the generator avoids the construct. The generator also avoids the known typing defects F13/F27 (C20/C01) and the shapes of the C02 findings this check produced or routes (F53c02 re-binding a name with a recorded narrowing, F64c02 unnamed star over a union of differently-labelled tuples, F73 misaligned locals after a failed branch, F75 callable field of a tuple containing a spread); their reproducers are in corpus/c02_known.txt and are matched by input signatures, table-driven by known_findings.json.",
     technique="Coq proof (laws of the reference semantics) + differential execution of the extracted evaluator on the real parser's AST against the real compiler+VM, 3-way with the test-suite's expected values",
 )
 
@@ -428,6 +428,21 @@ def run(ctx):
     rc, out = ctx.run_bin(qa, [], args=["--std"])
     open(std, "w").write("\n".join(out) + "\n")
     R = Runner(ctx, qa, drv, std)
+
+    if getattr(ctx, "replay_path", None):
+        # ./check C02 --replay <file>: re-judge the recorded (shrunk) source on the current tree
+        import json
+        obj = json.load(open(ctx.replay_path))
+        src = obj.get("shrunk") or obj.get("source") or ""
+        (ast, real, ev, st), = R.both([src], FUEL_SUITE, shards=1)
+        cat = classify(real, ev)
+        print("replay: %s real=%s evaluator=%s" % (cat, real, ev))
+        ctx.cov["replay"] = {"category": cat, "real": real, "evaluator": ev}
+        ctx.cov["evaluations"] = 1
+        if cat in ("DISAGREE", "real-panic"):
+            ctx.violation({"kind": "impl-violation-or-evaluator-bug", "source": src, "real": real, "evaluator": ev},
+                          finding_key=known_finding_of(ast, real, ev, st))
+        return
 
     # ---------------------------------------------------------------- sources
     suite = suite_pairs()
